@@ -19,9 +19,9 @@ func (*C07) Rule() string {
 }
 
 func (*C07) Plan(tier string) orch.Plan {
-	n := 400
+	n := 6000
 	if tier == "thorough" {
-		n = 60000
+		n = 400000
 	}
 	return orch.Plan{Episodes: n, Batch: 1}
 }
@@ -82,6 +82,13 @@ func (g *c07Gen) list(n int, groups bool) []scen.Arg {
 				items = append(items, g.scalar(g.key()))
 			}
 			out = append(out, scen.Arg{K: scen.Pick(g.r, []string{"attrs", "attrslice"}), Items: items})
+		case c < 11:
+			// NewAttrs(...) of a free-form list
+			var items []scen.Arg
+			for k := g.r.Range(1, 3); k > 0; k-- {
+				items = append(items, scen.Arg{K: "key", S: g.key()}, scen.Arg{K: "i", I: g.nextVal()})
+			}
+			out = append(out, scen.Arg{K: "newattrs", Items: items})
 		default:
 			out = append(out, g.scalar(g.key()))
 		}
@@ -118,8 +125,14 @@ func (p *C07) Gen(seed uint64, i int, tier string) *scen.Scenario {
 			op = scen.Op{Op: "new_child", L: d - 1, R: d, Name: fmt.Sprintf("l%d", d), Named: true}
 		}
 		op.Opts = append(op.Opts, scen.Op{Kind: "writer", W: d}, scen.Op{Kind: "errwriter", W: d})
-		// own attributes: empty in 1/3 of the loggers
-		if !r.Chance(1, 3) {
+		// own attributes: empty in 1/3 of the loggers; given either as New's free-form
+		// arguments (pairs, Attr, NewAttrs) or through With/Set options, never both in one call
+		if r.Chance(1, 4) {
+			op.Args = g.list(r.Range(1, 5), r.Chance(1, 4))
+			if r.Bool() {
+				op.Args = []scen.Arg{{K: "newattrs", Items: op.Args}}
+			}
+		} else if !r.Chance(1, 3) {
 			kind := scen.Pick(r, []string{"attrs", "args", "attrs1"})
 			o := scen.Op{Kind: kind}
 			if kind == "args" {
@@ -279,6 +292,7 @@ func (p *C07) Check(sc *scen.Scenario, run *orch.Run, env *orch.Env) []orch.Viol
 				l.parent = op.L
 				l.format = pl.format
 			}
+			l.attrs = append(l.attrs, flattenArgs(op.Args)...)
 			for k := range op.Opts {
 				oo := &op.Opts[k]
 				l.attrs = append(l.attrs, c07AttrsOf(oo)...)
@@ -476,6 +490,9 @@ func (p *C07) Classify(sc *scen.Scenario, run *orch.Run) (string, bool) {
 					own[a.Key] = true
 				}
 			}
+		}
+		if op.Op != "log" {
+			collect(flattenArgs(op.Args), false)
 		}
 		for k := range op.Opts {
 			collect(c07AttrsOf(&op.Opts[k]), false)
